@@ -259,6 +259,59 @@ fn print_family(dir: &Path, nfiles: usize) -> Vec<PathBuf> {
     let p = dir.join("famgraph.thrift");
     std::fs::write(&p, s).unwrap();
     entries.push(p);
+    // language features: typedef chains, keywords as identifiers, renamed items and fields, annotations, enum values
+    // out of the usual range, service inheritance, oneway methods, several exceptions, doc comments, an
+    // included file in a sub-directory whose stem equals another family file's
+    let sub = dir.join("sub");
+    std::fs::create_dir_all(&sub).unwrap();
+    std::fs::write(sub.join("fam0.thrift"), "namespace rs fam.feat.sub\nstruct Common { 1: optional string id }\ntypedef Common CommonAlias\n").unwrap();
+    let s = r#"include "sub/fam0.thrift"
+namespace rs fam.feat
+namespace go fam.feat.go
+
+/** a documented typedef chain */
+typedef i64 Id
+typedef Id UserId
+typedef list<UserId> UserIds
+typedef map<string, UserIds> Groups
+
+/// keywords as identifiers
+struct type {
+  1: optional string self,
+  2: optional i32 async,
+  3: optional bool match,
+  4: optional UserId fn (pilota.name = "func"),
+  5: optional Groups mod,
+}
+
+enum Status { OK = 0, NOT_FOUND = 404, NEGATIVE = -7, BIG = 2147483647 }
+
+struct Renamed {
+  1: optional string a (pilota.name = "alpha"),
+  2: optional binary b (pilota.rust_type = "vec"),
+  3: optional map<string, i32> c (pilota.rust_type = "btree"),
+  4: optional fam0.Common common (pilota.rust_wrapper_arc = "true"),
+  5: optional fam0.CommonAlias alias,
+  6: optional Status status = Status.NOT_FOUND,
+  7: optional list<type> types,
+} (pilota.name = "RenamedStruct")
+
+exception E1 { 1: string message }
+exception E2 { 1: string message, 2: i32 code }
+
+service Base {
+  Id next(1: Id cur),
+  oneway void fire(1: string what),
+}
+
+service Derived extends Base {
+  Renamed get(1: UserId id, 2: type t) throws (1: E1 e1, 2: E2 e2),
+  void type(1: Status self),
+}
+"#;
+    let p = dir.join("famfeat.thrift");
+    std::fs::write(&p, s).unwrap();
+    entries.push(p);
     entries
 }
 
@@ -439,6 +492,7 @@ fn corpora(scratch: &Path, tier_thorough: bool) -> Vec<Corpus> {
     let pruned = print_pruned(&pruned_dir);
     v.push(Corpus { name: "family_pruned".into(), source: "thrift", include: Some(pruned_dir), entries: pruned, modes: vec!["single_iu", "single_touch", "split_touch"] });
     v.push(Corpus { name: "family_type_graphs".into(), source: "thrift", include: None, entries: vec![fam[n + 1].clone()], modes: vec!["single", "single_iu", "workspace"] });
+    v.push(Corpus { name: "family_features".into(), source: "thrift", include: Some(scratch.join("family")), entries: vec![fam[n + 2].clone()], modes: vec!["single", "split", "workspace", "single_iu", "single_nocase", "single_serde"] });
     v
 }
 
